@@ -218,7 +218,8 @@ impl Property for Prop {
             (plen, sched)
         };
         let pdu = gen_pdu(&mut rng, plen, (key % 5) as usize);
-        let frag_id = rng.byte();
+        // all fragment ids; one in eight from the ends of the range
+        let frag_id = if rng.chance(1, 8) { [0u8, 255, 254, 1, 128, 127][rng.below(6)] } else { rng.byte() };
         let ptype = gen_user_ptype(&mut rng);
         // "sufficient storage": exactly the PDU, or boxes around the 16-bit boundary and far above it
         let storage = match rng.below(8) {
@@ -230,7 +231,13 @@ impl Property for Prop {
             _ => 70000,
         };
         let mut s = Sender::new(0x21);
-        let mut dec = plain_dec(1 + rng.below(3), storage, 2, storage, MandTable::none());
+        // memories of 1..3 slots, or one slot per fragment id (256) / one less (255)
+        let rx_slots = match rng.below(6) {
+            0 => 256,
+            1 => 255,
+            _ => 1 + rng.below(3),
+        };
+        let mut dec = plain_dec(rx_slots, storage, 2, storage, MandTable::none());
         let cls = format!("sched{}:{}", sched, ["6B", "3B", "bcast", "6Bsub", "3Bsub", "3Bzero"][case]);
         if primed {
             // the priming history: a packet with the same label; one time in four followed by
